@@ -19,9 +19,18 @@ G = {
     "g1": 'r = { ASCII_HEX_DIGIT+ ~ "x" ~ (NEWLINE | UPPERCASE_LETTER)? }\ns = { ("a" | "b" | ASCII_ALPHA)+ ~ "!" }\nt = _{ "a" | "ab" }\nu = { "a" | !"b" ~ ANY | &"c" ~ "cd" }\n',
     "g2": 'r = { ASCII_ALPHA ~ ASCII_HEX_DIGIT* ~ NEWLINE }\ns = { "q" ~ UPPERCASE_LETTER ~ t }\nt = _{ ASCII_DIGIT | "z" }\nu = { ("c" | !"d" ~ ANY)* ~ "d" }\n',
 }
+# second pool: what the first one lacks - implicit WHITESPACE, a grammar rule that is itself called SKIP (the optimizer's own rule name),
+# the (!stop ~ ANY)* idiom in a non-atomic rule under trivia (g3) and without trivia, evaluated twice per parse (g4), a tagged reference
+G.update({
+    "g3": 'WHITESPACE = _{ " " }\nSKIP = { "s" }\nr = { (!"b" ~ ANY)* ~ "b" }\ns = { SKIP ~ #t = u ~ "b" }\nt = _{ "a" | "ab" }\nu = { (!("b" | "ab") ~ ANY)* }\n',
+    "g4": 'r = { f ~ (";" ~ f)* }\nf = { (!";" ~ ANY)* }\ns = @{ (!^"ab" ~ ANY)* ~ ^"AB" }\nt = _{ "x" }\nu = { ("a" | !"b" ~ ANY)+ ~ &"b" }\n',
+})
+POOLS = (("g1", "g2"), ("g3", "g4"))
 PROBES = {
     "g1": [("r", "1fx\n"), ("r", "zx"), ("r", "1f"), ("s", "abZ!"), ("s", "ab1"), ("s", ""), ("u", "b"), ("u", "x"), ("u", "c")],
     "g2": [("r", "aF0\n"), ("r", "aG"), ("r", "1"), ("s", "qQ7"), ("s", "qq"), ("s", "q"), ("u", "xd"), ("u", "xc"), ("u", "")],
+    "g3": [("r", "  bb"), ("r", " a"), ("r", " b"), ("s", "s ab b"), ("s", "s a"), ("s", ""), ("u", " x b"), ("u", "xab"), ("r", "a b")],
+    "g4": [("r", "a;b"), ("r", "a;b"), ("r", ";;"), ("s", "xaBAb"), ("s", "xa"), ("s", "Ab"), ("u", "c"), ("u", "aab"), ("f", "a;b")],
 }
 KINDS = ("U", "O", "C")
 BOUNDS = {"quick": {"depth": 3, "preemptions": 1, "free_iterations": 200, "two_state_depth": 7}, "thorough": {"depth": 4, "preemptions": 2, "free_iterations": 2000, "two_state_depth": 9}}
@@ -79,15 +88,24 @@ def make(kind, g):
     return Parser.from_grammar(G[g], optimizer=Optimizer([DEFAULT_OPTIMIZER_PASSES[3], DEFAULT_OPTIMIZER_PASSES[2], DEFAULT_OPTIMIZER_PASSES[4]]))
 
 
-def ops_menu():
-    ops = [("mk", k, g) for g in G for k in KINDS]
-    ops += [("gen", g) for g in G] + [("ok", g) for g in G] + [("bad", g) for g in G] + [("neg", g) for g in G]
+def ops_menu(pool=POOLS[0]):
+    ops = [("mk", k, g) for g in pool for k in KINDS]
+    ops += [("gen", g) for g in pool] + [("ok", g) for g in pool] + [("bad", g) for g in pool] + [("neg", g) for g in pool]
     return ops
 
 
-def enabled(history):
+def enabled(history, pool=POOLS[0]):
     have = {op[2] for op in history if op[0] == "mk"}
-    return [op for op in ops_menu() if op[0] == "mk" or op[1] in have]
+    return [op for op in ops_menu(pool) if op[0] == "mk" or op[1] in have]
+
+
+def pool_of(history):
+    for op in history:
+        g = op[2] if op[0] == "mk" else op[1]
+        for pool in POOLS:
+            if g in pool:
+                return pool
+    return POOLS[0]
 
 
 def probe(obj, g):
@@ -161,7 +179,7 @@ def _history_worker(payload):
                     if got != ref[(kind, g)]:
                         bad.append((label, got, ref[(kind, g)]))
                 # parsers created AFTER the history must be unaffected by it as well
-                for g in G:
+                for g in pool_of(h):
                     for kind in ("U", "O", "GU", "GO"):
                         p = make(kind[-1], g)
                         obj = modes.Generated(p.generate()) if kind.startswith("G") else p
@@ -298,14 +316,15 @@ def run(tier: str) -> int:
         raise common.HarnessError("isolated reference observations are not reproducible")
     # all histories up to the depth bound
     histories = [()]
-    frontier = [()]
-    for _ in range(b["depth"]):
-        nxt = []
-        for h in frontier:
-            for op in enabled(h):
-                nxt.append(h + (op,))
-        histories.extend(nxt)
-        frontier = nxt
+    for pool in POOLS:
+        frontier = [()]
+        for _ in range(b["depth"]):
+            nxt = []
+            for h in frontier:
+                for op in enabled(h, pool):
+                    nxt.append(h + (op,))
+            histories.extend(nxt)
+            frontier = nxt
     chunks = [histories[i::common.workers() * 4] for i in range(common.workers() * 4)]
     results = common.parallel_map(_history_worker, [(c, ref) for c in chunks if c], fresh=True, order_seed=common.seed())
     states = set()
@@ -382,7 +401,7 @@ def run(tier: str) -> int:
         "traces_validated_against_impl": len(histories) + executions,
         "evaluations": len(histories) + executions,
         "distinct_nontrivial": len(histories) + executions,
-        "rule": "(a) every history over 14 operations - create an unoptimised / default-optimised / custom-pass parser for g1 or g2, generate+import a module from the latest parser of a grammar, a succeeding parse, a failing parse, and a parse whose furthest failure comes from a negative predicate - up to the depth bound, "
+        "rule": "(a) every history over 14 operations - create an unoptimised / default-optimised / custom-pass parser for g1 or g2 (second pool, explored separately: g3 with implicit WHITESPACE, a rule called SKIP, skip idioms and a tagged reference, and g4 with skip idioms evaluated twice per parse and a case-insensitive stop), generate+import a module from the latest parser of a grammar, a succeeding parse, a failing parse, and a parse whose furthest failure comes from a negative predicate - up to the depth bound, "
                 "each replayed from scratch in a forked pristine process; then every object created in the history, and fresh parsers/modules of every kind created after it, are probed with 9 calls per grammar (succeeding and failing, incl. predicate failures) and each probe "
                 "(tree, or furthest_pos + expected/unexpected sets) must equal the one obtained in a process whose only history is the creation of that one parser. g1 and g2 use the same built-ins (ASCII_HEX_DIGIT, ASCII_ALPHA, NEWLINE, a Unicode property), the same rule names with different bodies and squashable choices. "
                 "states = distinct (global-state fingerprint, verdict) pairs - counted, never used to prune. "
